@@ -12,7 +12,7 @@ pub struct Ctx<'a> {
     pub g: &'a Graph,
 }
 
-fn on_spine(w: &World, path: &[usize]) -> bool {
+pub fn on_spine(w: &World, path: &[usize]) -> bool {
     w.spine.iter().any(|p| p.as_slice() == path)
 }
 
@@ -499,12 +499,140 @@ pub fn check_c20(cx: &Ctx, rep: &mut Report) {
 
 pub fn check_c14(cx: &Ctx, rep: &mut Report) {
     let g = cx.g;
+    rep.distinct.extend(g.log_templates.iter().copied());
+    rep.evaluations += g.log_records as u64;
     for s in 0..g.states.len() {
         for e in &g.edges[s] {
             for l in &e.leaks {
                 let mut path = g.path_to(s);
                 path.push(e.action);
                 rep.finding(format!("C14|{l}"), format!("sensitive value in log/error/result: {l}"), detail(cx, &path, json!({"leak": l})));
+            }
+        }
+    }
+}
+
+// ---------------------------------------------------------------------------------------
+// C02: application messages
+// ---------------------------------------------------------------------------------------
+
+fn rumor_fields(p: &PoolEvent) -> Option<Value> {
+    let r = p.rumor.as_ref()?;
+    Some(json!({
+        "id": r.id.map(|i| i.to_hex()),
+        "pubkey": r.pubkey.to_hex(),
+        "kind": r.kind.as_u16(),
+        "created_at": r.created_at.as_secs(),
+        "content": r.content,
+        "tags": serde_json::to_value(&r.tags).unwrap_or(Value::Null),
+    }))
+}
+
+fn stored_fields(m: &Value) -> Value {
+    json!({"id": m["id"], "pubkey": m["pubkey"], "kind": m["kind"], "created_at": m["created_at"], "content": m["content"], "tags": m["tags"]})
+}
+
+/// status of pool message `i` in a state: (copies, intact, state)
+fn msg_status(w: &World, st: &StateRec, i: usize) -> (usize, bool, String) {
+    let p = &w.pool[i];
+    let Some(want) = rumor_fields(p) else { return (0, false, String::new()) };
+    let Some(g) = &st.g else { return (0, false, String::new()) };
+    let copies: Vec<&Value> = g.messages.iter().filter(|m| m["id"] == want["id"] || m["content"] == want["content"]).collect();
+    if copies.is_empty() {
+        return (0, false, String::new());
+    }
+    let m = copies[0];
+    let intact = stored_fields(m) == want && m["event_id"] == want["id"] && m["event_pubkey"] == want["pubkey"] && m["event_content"] == want["content"];
+    (copies.len(), intact, m["state"].as_str().unwrap_or("").to_string())
+}
+
+pub fn check_c02(cx: &Ctx, rep: &mut Report) {
+    let g = cx.g;
+    let w = cx.w;
+    let member = &g.member;
+    // (a) per edge: a delivered message is returned exactly as its sender created it
+    for s in 0..g.states.len() {
+        for e in &g.edges[s] {
+            let Action::Deliver(i) = e.action else { continue };
+            if w.pool[i].kind != EvKind::Msg {
+                continue;
+            }
+            rep.outcome(&format!("deliver-msg:{}", e.result));
+            if let Some(m) = &e.msg {
+                let want = rumor_fields(&w.pool[i]).unwrap_or(Value::Null);
+                rep.case(&format!("edge|{}|{}", event_class(w, member, i), e.result));
+                if stored_fields(m) != want {
+                    let mut path = g.path_to(s);
+                    path.push(e.action);
+                    rep.finding(format!("C02|altered-on-delivery|{}", event_class(w, member, i)), "ApplicationMessage result differs from what the sender created".into(), detail(cx, &path, json!({"got": m, "want": want})));
+                }
+            }
+        }
+    }
+    if g.capped {
+        return;
+    }
+    // (b) per state, judged on the quiescent state the state settles into
+    let verdict = |s: usize| -> Option<(String, usize)> {
+        let q = settle(cx, s)?;
+        let st = &g.states[q];
+        if classify(w, member, st) != Conv::Ok {
+            return None; // C01's business
+        }
+        let still_member = w.leaf().members.iter().any(|m| m == member);
+        for (i, p) in w.pool.iter().enumerate() {
+            if p.kind != EvKind::Msg {
+                continue;
+            }
+            let spine_msg = on_spine(w, &p.node);
+            let (copies, intact, state) = msg_status(w, st, i);
+            if spine_msg {
+                let was_member = w.nodes.get(&p.node).map(|n| n.members.iter().any(|m| m == member)).unwrap_or(false);
+                if !was_member || !still_member || g.regime != Regime::Causal {
+                    continue;
+                }
+                if copies == 0 {
+                    return Some(("lost".into(), i));
+                }
+                if copies > 1 {
+                    return Some(("duplicate".into(), i));
+                }
+                if !intact {
+                    return Some(("altered".into(), i));
+                }
+                if state != "processed" {
+                    return Some((format!("ends-{state}"), i));
+                }
+            } else if copies > 0 && (state == "processed" || state == "created") {
+                return Some(("loser-branch-valid".into(), i));
+            }
+        }
+        None
+    };
+    let verdicts: Vec<Option<(String, usize)>> = (0..g.states.len()).map(verdict).collect();
+    for s in 0..g.states.len() {
+        let Some((class, i)) = &verdicts[s] else { continue };
+        if let Some((p, _)) = g.states[s].parent {
+            if verdicts[p].as_ref() == Some(&(class.clone(), *i)) {
+                continue;
+            }
+        }
+        rep.case(&format!("state|{class}|{}", event_class(w, member, *i)));
+        let path = g.path_to(s);
+        let pred = |e: usize| verdicts[e].as_ref() == Some(&(class.clone(), *i));
+        let min = g.minimise(&path, &pred);
+        let sender_role = if &w.pool[*i].author == member { "own" } else { "other" };
+        let sig = format!("C02|{class}|{:?}|{}|msg.{sender_role}@depth{}|{}", g.regime, member_role(w, member), w.pool[*i].node.len(), abstract_trace(cx, &min));
+        rep.finding(sig, format!("member {member}: message {} ends {class} after [{}] and re-offering everything", w.pool[*i].label, trace_labels(cx, &min).join(" ; ")), detail(cx, &min, json!({"message": w.pool[*i].label, "class": class})));
+    }
+    for s in 0..g.states.len() {
+        if g.quiescent(s) {
+            for (i, p) in w.pool.iter().enumerate() {
+                if p.kind == EvKind::Msg {
+                    let (c, intact, st) = msg_status(w, &g.states[s], i);
+                    rep.case(&format!("q|{}|{c}|{intact}|{st}|{:?}", event_class(w, member, i), classify(w, member, &g.states[s])));
+                    rep.outcome(&format!("quiescent-msg:{}x{}", if st.is_empty() { "absent" } else { &st }, c));
+                }
             }
         }
     }
